@@ -413,4 +413,37 @@ theorem ends_eq_nil_iff {e : Env} {r : Re} {i : Nat} : ends e r i = [] ↔ ∀ j
       exfalso
       exact h x ((mem_ends r i x).mp (by rw [hl]; exact List.mem_cons_self))
 
+theorem llmatch_eq_some_iff (e : Env) (r : Re) (i j : Nat) :
+    llmatch e r = some (i, j) ↔
+      Matches e r i j ∧ (∀ i', i' < i → ∀ j', ¬ Matches e r i' j') ∧ (∀ j', j' > j → ¬ Matches e r i j') := by
+  unfold llmatch
+  rw [scan_eq_some, maxOf_eq_some]
+  constructor
+  · rintro ⟨_, _, ⟨hmem, hmax⟩, hbefore⟩
+    refine ⟨(mem_ends r i j).mp hmem, ?_, ?_⟩
+    · intro i' hi' j' hm
+      exact (ends_eq_nil_iff.mp (hbefore i' (Nat.zero_le _) hi')) j' hm
+    · intro j' hj' hm
+      have := hmax j' ((mem_ends r i j').mpr hm)
+      omega
+  · rintro ⟨hm, hleft, hlong⟩
+    have hb := Matches.bounds hm
+    refine ⟨Nat.zero_le _, by omega, ⟨(mem_ends r i j).mpr hm, ?_⟩, ?_⟩
+    · intro x hx
+      have hx' := (mem_ends r i x).mp hx
+      exact Nat.le_of_not_gt (fun hgt => hlong x hgt hx')
+    · intro a' _ ha'
+      exact ends_eq_nil_iff.mpr (fun j' => hleft a' ha' j')
+
+theorem llmatch_eq_none_iff (e : Env) (r : Re) :
+    llmatch e r = none ↔ ∀ i j, ¬ Matches e r i j := by
+  unfold llmatch
+  rw [scan_eq_none]
+  constructor
+  · intro h i j hm
+    have hb := Matches.bounds hm
+    exact (ends_eq_nil_iff.mp (h i (Nat.zero_le _) (by omega))) j hm
+  · intro h a _ _
+    exact ends_eq_nil_iff.mpr (h a)
+
 end Usual.C04
